@@ -46,26 +46,59 @@ fn open_tag<T, E: std::fmt::Debug>(r: Result<Result<T, E>, String>, is_pw: impl 
     }
 }
 
+/// the reader is handed over positioned at `pos` (0 = a fresh reader; callers that sniffed the magic bytes or
+/// measured the input first hand it over elsewhere): the constructors must not care
+fn cur(bytes: &[u8], pos: u64) -> Cursor<&[u8]> {
+    let mut c = Cursor::new(bytes);
+    c.set_position(pos);
+    c
+}
+fn open_xlsx_at(bytes: &[u8], pos: u64) -> String {
+    open_tag(guarded(|| Xlsx::new(cur(bytes, pos))), |e| matches!(e, calamine::XlsxError::Password))
+}
+fn open_xlsb_at(bytes: &[u8], pos: u64) -> String {
+    open_tag(guarded(|| Xlsb::new(cur(bytes, pos))), |e| matches!(e, calamine::XlsbError::Password))
+}
+fn open_xls_at(bytes: &[u8], pos: u64) -> String {
+    open_tag(guarded(|| Xls::new(cur(bytes, pos))), |e| matches!(e, calamine::XlsError::Password))
+}
+fn open_ods_at(bytes: &[u8], pos: u64) -> String {
+    open_tag(guarded(|| Ods::new(cur(bytes, pos))), |e| matches!(e, calamine::OdsError::Password))
+}
 fn open_xlsx(bytes: &[u8]) -> String {
-    open_tag(guarded(|| Xlsx::new(Cursor::new(bytes))), |e| matches!(e, calamine::XlsxError::Password))
+    open_xlsx_at(bytes, 0)
 }
 fn open_xlsb(bytes: &[u8]) -> String {
-    open_tag(guarded(|| Xlsb::new(Cursor::new(bytes))), |e| matches!(e, calamine::XlsbError::Password))
+    open_xlsb_at(bytes, 0)
 }
 fn open_xls(bytes: &[u8]) -> String {
-    open_tag(guarded(|| Xls::new(Cursor::new(bytes))), |e| matches!(e, calamine::XlsError::Password))
+    open_xls_at(bytes, 0)
 }
 fn open_ods(bytes: &[u8]) -> String {
-    open_tag(guarded(|| Ods::new(Cursor::new(bytes))), |e| matches!(e, calamine::OdsError::Password))
+    open_ods_at(bytes, 0)
 }
 
-/// `open_workbook_auto_from_rs` swallows every reader's error; only observed (counter), never judged
-fn open_auto_rs(bytes: &[u8]) -> String {
-    match guarded(|| open_workbook_auto_from_rs(Cursor::new(bytes.to_vec()))) {
+/// `open_workbook_auto_from_rs` swallows every reader's error: the class is only observed (counter), but it must
+/// not depend on where the reader stands either
+fn open_auto_rs_at(bytes: &[u8], pos: u64) -> String {
+    let mut c = Cursor::new(bytes.to_vec());
+    c.set_position(pos);
+    match guarded(|| open_workbook_auto_from_rs(c)) {
         Err(_) => "panic".into(),
-        Ok(Ok(_)) => "ok".into(),
+        Ok(Ok(s)) => format!(
+            "ok:{}",
+            match s {
+                calamine::Sheets::Xls(_) => "xls",
+                calamine::Sheets::Xlsx(_) => "xlsx",
+                calamine::Sheets::Xlsb(_) => "xlsb",
+                calamine::Sheets::Ods(_) => "ods",
+            }
+        ),
         Ok(Err(e)) => format!("err:{}", variant(format!("{e:?}"))),
     }
+}
+fn open_auto_rs(bytes: &[u8]) -> String {
+    open_auto_rs_at(bytes, 0)
 }
 
 /// `open_workbook_auto(path)` dispatches on the extension and keeps the reader's error
@@ -120,8 +153,8 @@ fn unhexs(s: &str) -> String {
 
 fn copts_text(o: &CfbOpts, lseed: u64) -> String {
     format!(
-        "ss={},sh={},msh={},free={},unused={},dsh={},minfat={},fill={},ng={},ls={}",
-        o.sector_size, o.shuffle as u8, o.mini_shuffle as u8, o.extra_free, o.unused_dirs, o.dir_shuffle as u8, o.min_fat_sectors, o.fill, o.name_garbage as u8, lseed
+        "ss={},sh={},msh={},free={},unused={},dsh={},minfat={},fill={},ng={},pl={},df={},ls={}",
+        o.sector_size, o.shuffle as u8, o.mini_shuffle as u8, o.extra_free, o.unused_dirs, o.dir_shuffle as u8, o.min_fat_sectors, o.fill, o.name_garbage as u8, o.placement, o.dir_first as u8, lseed
     )
 }
 
@@ -141,6 +174,8 @@ fn copts_parse(s: &str) -> (CfbOpts, u64) {
             "minfat" => o.min_fat_sectors = n as usize,
             "fill" => o.fill = n as u8,
             "ng" => o.name_garbage = n != 0,
+            "pl" => o.placement = n as u8,
+            "df" => o.dir_first = n != 0,
             "ls" => ls = n,
             x => panic!("unknown container knob {x}"),
         }
@@ -157,6 +192,11 @@ fn gen_copts(rng: &mut Rng, allow_big: bool) -> String {
         o.sector_size = 512;
         o.min_fat_sectors = 110 + rng.below(60) as usize;
     }
+    // where the allocation tables and the directory sit: start (Excel), end, middle of the file
+    if rng.chance(1, 4) {
+        o.placement = rng.range(1, 2) as u8;
+    }
+    o.dir_first = rng.chance(1, 6);
     copts_text(&o, rng.next() >> 16)
 }
 
@@ -192,10 +232,38 @@ fn agree(impl_tag: &str, model_tag: &str) -> bool {
     }
 }
 
+/// The constructor's result class must not depend on the position the reader is handed over at: an encrypted
+/// workbook is `password` from every position, anything else gives what a fresh reader (position 0) gives.
+fn judge_positions(out: &mut Outcome, reader: &str, bytes: &[u8], tag0: &str, encrypted: bool, model: &str, open_at: &dyn Fn(&[u8], u64) -> String) {
+    let len = bytes.len() as u64;
+    for (cls, p) in [("4", 4u64), ("8", 8), ("mid", len / 2), ("eof", len)] {
+        let t = open_at(bytes, p);
+        out.count(format!("reader-position:{reader}:{cls}"));
+        if encrypted && t != "password" {
+            out.fail("impl_vs_spec", &format!("encrypted-not-reported:{reader}:reader-at-{cls}"), &format!("{t} (reader handed over at offset {p}; at offset 0: {tag0})"), model, "password");
+        } else if t != tag0 {
+            out.fail("impl_vs_spec", &format!("position-dependent:{reader}:reader-at-{cls}"), &format!("{t} (reader handed over at offset {p})"), model, &format!("{tag0} (as from offset 0)"));
+        }
+    }
+}
+
+/// the same for `open_workbook_auto_from_rs` (small files only: every attempt clones the bytes)
+fn judge_positions_auto(out: &mut Outcome, bytes: &[u8], model: &str) {
+    if bytes.len() > 300_000 {
+        return;
+    }
+    let t0 = open_auto_rs(bytes);
+    judge_positions(out, "auto_from_rs", bytes, &t0, false, model, &open_auto_rs_at);
+}
+
 // ---------------------------------------------------------------------------------------------
 // family ooxml
 
 const ENC: &str = "EncryptedPackage";
+/// largest file handed to the Lean model (`C20_MODEL_MAX` overrides)
+fn model_max() -> usize {
+    std::env::var("C20_MODEL_MAX").ok().and_then(|v| v.parse().ok()).unwrap_or(4 << 20)
+}
 
 fn run_ooxml(text: &str, drv: &mut Driver, extras: bool) -> Outcome {
     let mut out = Outcome::default();
@@ -242,9 +310,18 @@ fn run_ooxml(text: &str, drv: &mut Driver, extras: bool) -> Outcome {
         None => "none",
     };
     let ver = if opts.sector_size == 512 { "v3" } else { "v4" };
-    let model = drv.ask(&format!("ooxml {}", hex(&bytes)));
+    let big = bytes.len() > (1 << 20);
+    // the Lean model on megabytes of `List UInt8` costs seconds: for big containers the oracle alone judges
+    // (the model of the check does not depend on the size)
+    let model = if bytes.len() > model_max() { if encrypted { "password".to_string() } else { "pass".to_string() } } else { drv.ask(&format!("ooxml {}", hex(&bytes))) };
     let ix = open_xlsx(&bytes);
     let ib = open_xlsb(&bytes);
+    if big {
+        out.count(format!("ooxml:big-container:{}MiB:tables-{}{}", bytes.len() >> 20, ["start", "end", "middle"][opts.placement.min(2) as usize], if opts.dir_first { ":dir-first" } else { "" }));
+        if bytes.len() > model_max() {
+            out.count("ooxml:big-container:model-skipped");
+        }
+    }
     out.count(format!("ooxml:{}:{ver}:pkg-{place}:{}", if encrypted { "encrypted" } else { "plain-cfb" }, if has_mini { "ministream" } else { "no-ministream" }));
     out.count(format!("ooxml:model={model}"));
     out.count(format!("ooxml:xlsx={ix}"));
@@ -267,6 +344,10 @@ fn run_ooxml(text: &str, drv: &mut Driver, extras: bool) -> Outcome {
     if encrypted && model != "password" && ix == "password" && ib == "password" {
         out.fail("model_vs_spec", "ooxml-model", &ix, &model, "password");
     }
+    judge_positions(&mut out, "xlsx", &bytes, &ix, encrypted, &model, &open_xlsx_at);
+    judge_positions(&mut out, "xlsb", &bytes, &ib, encrypted, &model, &open_xlsb_at);
+    judge_positions_auto(&mut out, &bytes, &model);
+    let extras = extras || big;
     if extras && encrypted {
         out.count(format!("ooxml:auto_from_rs={}", open_auto_rs(&bytes)));
         for ext in ["xlsx", "xlsb", "xlsm"] {
@@ -350,6 +431,31 @@ fn gen_ooxml(rng: &mut Rng, thorough: bool) -> String {
         String::new()
     };
     format!("ooxml;{};{}{}", gen_copts(rng, true), st, damage)
+}
+
+/// an encrypted package of 1.2 – 3 MiB (as a real workbook of some size gives), allocation tables and directory
+/// at the start, at the end or in the middle of the file
+fn gen_ooxml_big(rng: &mut Rng) -> String {
+    let mut o = CfbOpts::default();
+    o.sector_size = if rng.chance(1, 2) { 512 } else { 4096 };
+    o.placement = rng.below(3) as u8;
+    o.dir_first = rng.chance(1, 3);
+    o.shuffle = rng.chance(1, 4);
+    o.mini_shuffle = rng.chance(1, 2);
+    o.unused_dirs = rng.below(3) as usize;
+    o.extra_free = rng.below(3) as usize;
+    o.name_garbage = rng.chance(1, 3);
+    let n = rng.range(1_200_000, 3_000_000);
+    let mut streams = vec![format!("{}:r{}.{}", hexs(ENC), n, rng.below(1 << 30))];
+    if rng.chance(4, 5) {
+        let k = *rng.pick(&[248u64, 1200, 5000]);
+        streams.push(format!("{}:r{}.{}", hexs("EncryptionInfo"), k, rng.below(1 << 30)));
+    }
+    if rng.chance(1, 2) {
+        streams.push(format!("{}:r76.{}", hexs("\u{6}Primary"), rng.below(1 << 30)));
+    }
+    rng.shuffle(&mut streams);
+    format!("ooxml;{};{}", copts_text(&o, rng.next() >> 16), streams.join("/"))
 }
 
 // ---------------------------------------------------------------------------------------------
@@ -506,6 +612,8 @@ fn judge_xls(out: &mut Outcome, bytes: &[u8], wb: &[u8], drv: &mut Driver, expec
     out.count(format!("xls:model={}", ms.split(':').next().unwrap()));
     out.count(format!("xls:impl={it_}"));
     judge_xls_file(out, bytes, &it_, drv, "xls");
+    judge_positions(out, "xls", bytes, &it_, expect_pw == Some(true), &ms, &open_xls_at);
+    judge_positions_auto(out, bytes, &ms);
     if ms != mr {
         out.fail("model_vs_spec", "xls-stream-vs-records", &it_, &reply, "");
     }
@@ -602,6 +710,7 @@ fn run_xlsraw(text: &str, drv: &mut Driver) -> Outcome {
     out.count(format!("xlsraw:filepass={cls}:{}", if legal { "before-eof" } else { "after-eof" }));
     out.count(format!("xlsraw:impl={it_}"));
     judge_xls_file(&mut out, &bytes, &it_, drv, "xlsraw");
+    judge_positions(&mut out, "xls", &bytes, &it_, !pre.iter().any(|r| r.0 == 0x000A), &ms, &open_xls_at);
     // the harness frames the Lean-encoded stream back: it must contain the FILEPASS record where it was put
     let g = frame_globals(&wb);
     let seen = g.iter().any(|r| r.0 == 0x2F);
@@ -1026,6 +1135,8 @@ fn run_ods(text: &str, drv: &mut Driver, extras: bool) -> Outcome {
     }
     out.count(format!("ods:model={model}"));
     out.count(format!("ods:impl={it}"));
+    judge_positions(&mut out, "ods", &bytes, &it, declares && cut.is_none(), &model, &open_ods_at);
+    judge_positions_auto(&mut out, &bytes, &model);
     out.count(format!("ods:{}", if cut.is_some() { "truncated-manifest" } else { "whole-manifest" }));
     if !agree(&it, &model) {
         out.fail("impl_vs_model", &format!("ods:impl={}:model={}", it.split(':').next().unwrap(), model.split(':').next().unwrap()), &it, &model, "");
@@ -1154,6 +1265,14 @@ fn judge_plain(out: &mut Outcome, fmt: &str, bytes: &[u8], drv: &mut Driver, exp
         x => panic!("format {x}"),
     };
     out.count(format!("{label}:{fmt}:impl={it}"));
+    let open_at: &dyn Fn(&[u8], u64) -> String = match fmt {
+        "xlsx" => &open_xlsx_at,
+        "xlsb" => &open_xlsb_at,
+        "xls" => &open_xls_at,
+        _ => &open_ods_at,
+    };
+    judge_positions(out, fmt, bytes, &it, expect_pw, &model, open_at);
+    judge_positions_auto(out, bytes, &model);
     out.count(format!("{label}:{fmt}:model={}", model.split(':').next().unwrap()));
     if model != "n/a" && !agree(&it, &model) {
         out.fail("impl_vs_model", &format!("{label}:{fmt}:impl={}:model={}", it.split(':').next().unwrap(), model.split(':').next().unwrap()), &it, &model, "");
@@ -1332,6 +1451,11 @@ fn corpus() -> Vec<String> {
         format!("ooxml;{PLAIN4},ng=1;{enc}:r5000.1/{info}:r248.2"),
         format!("xls;{PLAIN},ng=1;b0;47:00001234abcd;_;scr=0"),
         format!("xls;{PLAIN},ng=1;b7;_;_;scr=0;name=Book"),
+        // seeded change C20-m5: containers larger than 1 MiB with the allocation tables and the directory at the
+        // end / in the middle / at the start of the file
+        format!("ooxml;{PLAIN},pl=1;{enc}:r1300000.1/{info}:r248.2"),
+        format!("ooxml;{PLAIN4},pl=2;{enc}:r2500000.1/{info}:r248.2"),
+        format!("ooxml;{PLAIN},pl=0,df=1;{enc}:r1300000.1/{info}:r248.2"),
         // compound files that are not encrypted packages
         format!("ooxml;{PLAIN};{}:r100.1/{info}:r248.2", hexs("encryptedpackage")),
         format!("ooxml;{PLAIN};_"),
@@ -1370,12 +1494,12 @@ fn main() {
         "C20",
         "encrypted OOXML packages (compound files from cfbw: v3/v4, shuffled/fragmented, free sectors, DIFAT, stale characters behind the NUL of directory names, EncryptedPackage of \
          0..70000 bytes in the mini stream or in regular sectors, EncryptionInfo standard/agile/extensible headers + arbitrary bytes, \
-         DataSpaces streams; near-miss names as negatives; one in ten truncated or with one byte overwritten: impl vs model only) opened with Xlsx::new and Xlsb::new; BIFF8 workbooks from xlsw with a \
+         DataSpaces streams; near-miss names as negatives; one case in 500 with a 1.2-3 MiB package and the allocation tables/directory at the start, end or middle of the file; one in ten truncated or with one byte overwritten: impl vs model only) opened with Xlsx::new and Xlsb::new; BIFF8 workbooks from xlsw with a \
          FILEPASS record (wEncryptionType 0 / 1 RC4 / 1 CryptoAPI / other / truncated) first after BOF, after other globals records, \
          or last before EOF, stream named Workbook or Book, rest of the stream optionally replaced by noise, a FILEPASS-typed record inside a sheet substream as a negative, plus globals streams laid out by the Lean encoder; \
          ods packages whose manifest (0..40 entries, encryption-data in any subset of them, other children, comments, white space, \
          unusual root names, optionally truncated) is serialized from a logical description; conversely random unencrypted workbooks \
-         of the four formats from the shared writers and every fixture of /repo/tests. impl = the reader's constructor result class, \
+         of the four formats from the shared writers and every fixture of /repo/tests. every file is opened through readers handed over at offset 0, 4, 8, mid-file and EOF (all four readers and open_workbook_auto_from_rs): the result class must not depend on it. impl = the reader's constructor result class, \
          model = Lean decision logic on the same bytes/records/events, oracle = the description's own encrypted flag. \
          Outside the generator: manifests with a namespace prefix other than `manifest:`, compound files with storages as a tree. \
          non-trivial = encrypted case, or unencrypted generated workbook / fixture; distinct by description text",
@@ -1392,6 +1516,10 @@ fn main() {
         let thorough = args.thorough();
         for i in 0..n {
             let mut r = rng.fork();
+            if i % 500 == 125 {
+                cases.push(gen_ooxml_big(&mut r));
+                continue;
+            }
             let c = match i % 20 {
                 0..=5 => gen_ooxml(&mut r, thorough),
                 6..=9 => gen_xls(&mut r),
@@ -1425,7 +1553,7 @@ fn main() {
             rep.fail(kind, sig, text, im, mo, ex);
         }
     };
-    let workers = if cases.len() >= 10_000 { std::thread::available_parallelism().map(|n| n.get()).unwrap_or(1).clamp(1, 8) } else { 1 };
+    let workers = if cases.len() >= 3_000 { std::thread::available_parallelism().map(|n| n.get()).unwrap_or(1).clamp(1, 8) } else { 1 };
     if workers == 1 {
         for (i, text) in cases.iter().enumerate() {
             let out = run_case(text, &mut drv, extras_for(i));
